@@ -27,6 +27,8 @@
  *           bit 8 (256): print "shape <canonical tree>" for the raw object tree the XML backend hands to the core
  *                      (phase-boundary hook of hwloc_discover, before any post-processing): types after
  *                      conversion, children of the four lists merged and sorted, for the import model
+ *           bits 10-14 / 15-19: (object type + 1) of up to two types whose filter is set to the value in bits
+ *                      20-21 (1 KEEP_NONE, 2 KEEP_STRUCTURE) after the bit-2 assignment; 0 = none
  *           bit 4 (16): after a failed load the topology is re-configured with a valid XML buffer (with cpukinds,
  *                      memattr, distances) instead of a synthetic description
  * Every job runs in a forked child limited to HWV_WATCHDOG (default 5) seconds of CPU time (SIGXCPU = 24)
@@ -344,6 +346,11 @@ static int do_topo(const char *backend, const char *method, unsigned long tflags
   if (tflags) printf("flags rc=%d\n", hwloc_topology_set_flags(t, tflags));
   if (ud) hwloc_topology_set_userdata_import_callback(t, ud_cb);
   if (opts & 4) hwloc_topology_set_all_types_filter(t, HWLOC_TYPE_FILTER_KEEP_ALL);
+  {
+    int fa = (opts >> 10) & 31, fb = (opts >> 15) & 31, fv = (opts >> 20) & 3;
+    if (fa) printf("filter %d=%d rc=%d\n", fa - 1, fv, hwloc_topology_set_type_filter(t, (hwloc_obj_type_t)(fa - 1), (enum hwloc_type_filter_e) fv));
+    if (fb) printf("filter %d=%d rc=%d\n", fb - 1, fv, hwloc_topology_set_type_filter(t, (hwloc_obj_type_t)(fb - 1), (enum hwloc_type_filter_e) fv));
+  }
   if (opts & 256) hwloc_verif_phase_cb = shape_cb;
   phase("set");
   errno = 0;
